@@ -18,11 +18,11 @@ RULE = ('tie cases = every (mechanism in relocate/relocate-exec/relocate-create/
 
 MECH_N_QUICK, MECH_N_THOROUGH = 6, 12
 SCENARIOS = [  # name, element kinds
-    ('arr', 'nc'), ('arri', 'n'), ('arrr', 'n'), ('seg', 'nc'), ('hset', 'nc'), ('hseto', 'nc'), ('hset1', 'nc'),
-    ('hmap', 'nc'), ('hmm', 'nc'), ('tset', 'nc'), ('tsetf', 'nc'), ('tmap', 'nc'), ('tsmall', 'n'), ('pool', 'n'), ('pool1', 'n'), ('pool2', 'n'), ('pool4', 'n'),
+    ('arr', 'nc'), ('arri', 'n'), ('arrr', 'n'), ('seg', 'nc'), ('hset', 'nc'), ('hseto', 'nc'), ('hset1', 'nc'), ('hsfirst', 'n'), ('hsfirsto', 'n'),
+    ('hmap', 'nc'), ('hmm', 'nc'), ('tset', 'nc'), ('tsetf', 'nc'), ('tmap', 'nc'), ('tsmall', 'n'), ('tmergeb', 'n'), ('pool', 'n'), ('pool1', 'n'), ('pool2', 'n'), ('pool4', 'n'),
     ('dt', 'n'), ('svec', 'nc'), ('suset', 'n'), ('sset', 'n'), ('sumap', 'n'), ('summap', 'n'), ('smap', 'n'), ('smmap', 'n')]
-PART = {'arr': 1, 'arri': 1, 'arrr': 1, 'seg': 1, 'hset': 1, 'hseto': 1, 'hset1': 1,
-        'hmap': 2, 'hmm': 2, 'tset': 2, 'tsetf': 2, 'tmap': 2, 'tsmall': 2, 'pool': 2, 'pool1': 2, 'pool2': 2, 'pool4': 2}
+PART = {'arr': 1, 'arri': 1, 'arrr': 1, 'seg': 1, 'hset': 1, 'hseto': 1, 'hset1': 1, 'hsfirst': 1, 'hsfirsto': 1,
+        'hmap': 2, 'hmm': 2, 'tset': 2, 'tsetf': 2, 'tmap': 2, 'tsmall': 2, 'tmergeb': 2, 'pool': 2, 'pool1': 2, 'pool2': 2, 'pool4': 2}
 
 
 # stdish wrappers use the default HashSetSettings / TreeSetSettings with momo's debug self check (pvExtraCheck calls the functors again and asserts
@@ -71,16 +71,13 @@ def tie_cases(N):
         for b in range(0, 4):
             for f in range(-1, a + b + 1):
                 cases.append('pools %d %d %d' % (a, b, f))
-    for c in (2, 3, 4, 5):                              # two-level trees: root with c-1 items, c leaves of 2 items
-        for j in range(-1, 3 * c):
-            cases.append('ts2 %d %d' % (c, j))
     for n in (0, 1, 3, 4, 5, 9):                        # SegmentedArray range constructor, 4 items per segment
         for c in range(-1, n + 1):
             cases.append('sa %d %d' % (n, c))
     for n in range(0, min(N, 6) + 1):
         for c in range(-1, 2 * n + 1):
             cases.append('dt %d %d' % (n, c))
-        for c in range(-1, 3 * n + 1):
+        for c in range(-1, 3 * n + 2):
             cases.append('hmm %d %d' % (n, c))
     return cases
 
@@ -113,6 +110,33 @@ def grow_cases(ctx, harness):
             cases.append('grow ntm %s %d' % (flags, c))
         for c in sorted(set(cpo)):
             cases.append('grow cpo %s %d' % (flags, c))
+    return cases
+
+
+def tree_cases(ctx, harness):
+    """TreeSet copy constructor on real trees of growing depth: the shape is probed from the real tree, the model copies a tree
+    of exactly that shape; every element copy index fails once (small trees) or a spread of them (big trees)"""
+    cases = []
+    ns = (0, 1, 4, 5, 6, 7, 9, 12, 16, 22, 31, 40) if ctx.quick() else tuple(range(0, 60))
+    path = os.path.join(ctx.build, 'tsnprobe.cases')
+    open(path, 'w').write(''.join('tsnprobe %d\n' % n for n in ns))
+    rc, lines, err = ctx.run_lines([harness], path)
+    for n, line in zip(ns, lines):
+        shape = line.split()[0] if line.split() else ''
+        if not shape or shape == '?':
+            continue
+        js = range(-1, n + 1) if (n <= 16 or not ctx.quick()) else sorted(set([-1, 0, 1, n // 3, n // 2, n - 2, n - 1, n]))
+        for j in js:
+            cases.append('tsn %d %s %d' % (n, shape, j))
+    for cat in ('ntm', 'cpo'):                          # first insertion into a bucket-less set: crew, bucket array, params, item
+        for k in range(-1, 5):
+            cases.append('hsf %s %d' % (cat, k))
+    for cat, n in (('ntm', 50), ('cpo', 50), ('ntm', 95), ('cpo', 95)):       # growth points from the capacity policy: any c
+        total = n if cat == 'ntm' else n + (44 if n > 44 else 0) + (88 if n > 88 else 0)
+        cs = sorted(set([-1, 0, 1, 20, 43, 44, 45, 46, 60, 87, 88, 89, 90, 100, 131, 132, 133, 134, 180, total - 1, total]))
+        for c in cs:
+            if c <= total:
+                cases.append('growa %s %d %d' % (cat, n, c))
     return cases
 
 
@@ -276,7 +300,7 @@ def replay(ctx, rp):
     if case.split()[0] in ('dt', 'hmm'):
         harness = exes.get('tie2')
     have_model = ctx.prove() and ctx.extract()
-    if case.split()[0] in ('om', 'arr', 'hs', 'ts', 'crew', 'pools', 'ts2', 'sa', 'grow', 'dt', 'hmm'):
+    if case.split()[0] in ('om', 'arr', 'hs', 'ts', 'crew', 'pools', 'tsn', 'hsf', 'sa', 'grow', 'growa', 'dt', 'hmm'):
         if harness is None or not have_model:
             print('cannot build harness/model'); return 2
         mism, _ = ctx.correspond('replay', [case], [harness], [ctx.model_exe], stage=False)
@@ -318,7 +342,7 @@ def run(ctx):
     N = MECH_N_QUICK if ctx.quick() else MECH_N_THOROUGH
     # ---- tie: micro-correspondence of event traces
     if harness is not None and have_model:
-        cases = tie_cases(N) + grow_cases(ctx, harness)
+        cases = tie_cases(N) + grow_cases(ctx, harness) + tree_cases(ctx, harness)
         part2 = [c for c in cases if c.split()[0] in ('dt', 'hmm')]
         part1 = [c for c in cases if c.split()[0] not in ('dt', 'hmm')]
         mism, _ = ctx.correspond('micro-correspondence', part1, [harness], [ctx.model_exe])
@@ -332,7 +356,7 @@ def run(ctx):
         for (i, c, a, b) in mism[:3]:
             ctx.violation('resource-machine model and implementation disagree on the event trace', {'case': c, 'impl': a, 'model': b,
                           'cmd': 'echo "%s" | build/C03/harness' % c}, found_input=True)
-        ctx.coverage.setdefault('input_distribution', {})['tie_cases'] = {k: sum(1 for c in cases if c.split()[0] == k) for k in ('om', 'arr', 'hs', 'ts', 'crew', 'pools', 'ts2', 'sa', 'grow', 'dt', 'hmm')}
+        ctx.coverage.setdefault('input_distribution', {})['tie_cases'] = {k: sum(1 for c in cases if c.split()[0] == k) for k in ('om', 'arr', 'hs', 'ts', 'crew', 'pools', 'tsn', 'hsf', 'sa', 'grow', 'growa', 'dt', 'hmm')}
         for c in cases[::max(1, len(cases) // 4)][:4]:
             ctx.add_sample(c)
     # ---- oracle / search on the real code
